@@ -1429,31 +1429,38 @@ func (l *ChainedSeqContext3) apply(ctx *Context, a, b int) int {
 	p = a
 	matchPos := ctx.scratch[:0]
 	glyphsNeeded = len(l.Input)
-	for _, cov := range l.Input {
-		if p+glyphsNeeded-1 >= b || !cov[seq[p].GID] {
+	for i, cov := range l.Input {
+		glyphsNeeded--
+		if i > 0 {
+			p++
+			for p+glyphsNeeded < b && !keep.Keep(seq[p].GID) {
+				p++
+			}
+		}
+		if p+glyphsNeeded >= b || !cov[seq[p].GID] {
 			ctx.scratch = matchPos // return the scratch space
 			return -1
 		}
 		matchPos = append(matchPos, p)
-		glyphsNeeded--
-		p++
-		for p+glyphsNeeded < b && !keep.Keep(seq[p].GID) {
-			p++
-		}
 	}
 	next := p
 
 	glyphsNeeded = len(l.Lookahead)
 	for _, cov := range l.Lookahead {
-		if p+glyphsNeeded-1 >= len(seq) || !cov[seq[p].GID] {
-			ctx.scratch = matchPos // return the scratch space
-			return -1
-		}
 		glyphsNeeded--
 		p++
 		for p+glyphsNeeded < len(seq) && !keep.Keep(seq[p].GID) {
 			p++
 		}
+		if p+glyphsNeeded >= len(seq) || !cov[seq[p].GID] {
+			ctx.scratch = matchPos // return the scratch space
+			return -1
+		}
+	}
+
+	next++
+	for next < b && !keep.Keep(seq[next].GID) {
+		next++
 	}
 
 	ctx.scratch = nil // claim the scratch space as our own
